@@ -40,7 +40,13 @@ void out_finish(void);                          /* flush counters, features, pri
 extern __thread char cur_label[320];
 extern __thread const char *cur_prop;           /* property blamed for a crash inside the library */
 extern __thread char cur_replay[512];
-#define LABEL(...) snprintf(cur_label, sizeof cur_label, __VA_ARGS__)
+extern int label_rec_n;
+void label_rec(void);
+#define LABEL(...) do { snprintf(cur_label, sizeof cur_label, __VA_ARGS__); if (__builtin_expect(label_rec_n < 16, 0)) label_rec(); } while (0)
+/* evidence: events of one case written out (the first CLOG_MAX events the engine reports while clog_on) */
+extern int clog_on;
+void clog_event(const char *fmt, ...) __attribute__((format(printf, 1, 2)));
+void clog_title(const char *fmt, ...) __attribute__((format(printf, 1, 2)));
 int viol_count(void);
 void hex(char *dst, const void *src, size_t n); /* dst must hold 2n+1 */
 const char *sym_name(const void *addr);         /* exact-address symbol name from <argv0>.syms (nm), "?" if unknown */
@@ -70,6 +76,10 @@ uint8_t *galloc(gbuf_t *g, size_t size, size_t align, int placement, unsigned mi
 void gprot(gbuf_t *g, int readonly);
 int gcanary_ok(const gbuf_t *g, long *where);   /* where: offset relative to p of first damaged slack byte */
 void gfree(gbuf_t *g);
+/* a readable/writable region of 2*half bytes whose middle lies on a 4 GiB-aligned address: a buffer placed across the middle
+ * exposes pointer arithmetic carried out in 32 bits (lost carry into bit 32). Each call maps a fresh region; NULL when no such
+ * address range can be mapped (sanitizer shadow, valgrind). */
+uint8_t *straddle_map(size_t half);
 void *gnone_ptr(void);                          /* pointer into the middle of a PROT_NONE region (16 pages each side) */
 size_t gnone_range(uint8_t **lo);               /* the PROT_NONE region */
 
